@@ -261,12 +261,269 @@ def posted_of(el, select_name=None):
     return None
 
 
-def render_all(case):
-    """run every render of the case on the real generator; returns (root, list of per-render dicts)"""
+# ------------------------------------------------------------------ pre-history: generator calls BEFORE the renderings
+# A case may carry "pre": a list of generator calls made (each caught) on the SAME generator before the first rendering:
+#   {"op": "begin" | "set", "settings": [[k, v], ...]}      gen.begin(**kw) / gen.set(**kw)
+#   {"op": "update", "pos": None | [[k, v], ...], "settings": [[k, v], ...]}     gen.update({pos}, **kw)
+#   {"op": "setitem", "key": k, "value": v}                 gen[k] = v
+#   {"op": "end"}                                           gen.end()
+#   {"op": "tag", "sel": ..., "tag": ..., "kwargs": ..., "how": ..., "handle": ..., "badbind": bool}    a tag call meant to raise
+# The case stores NO expectation: which calls are rejected is decided by the reference below (oracle side), and,
+# separately, by the Lean model of Context / Generator (Flatland.C19.step in Run/C12.lean).
+
+PRE_KNOWN = {"auto_name", "auto_value", "auto_domid", "auto_for", "auto_tabindex", "auto_filter", "tabindex", "domid_format",
+             "ordered_attributes", "markup_wrapper", "filters"}            # docs/source/markup.rst: the settings
+PRE_YES = {"1", "true", "t", "on", "yes"}
+PRE_NO = {"0", "false", "nil", "off", "no"}
+PRE_DEFAULT = {"auto_name": True, "auto_value": True, "auto_domid": False, "auto_for": False}
+PRE_UNKNOWN = ["no_such", "auto_nmae", "auto_vlaue", "domid_fromat", "autoname", "Auto_name", "auto_name ", "name", "markup", "",
+               "auto", "tab_index", "ordered"]
+PRE_OFF = [B(False), B(False), S("off"), S("no"), S("0"), S("False"), S("NIL")]
+PRE_ON = [B(True), S("on"), S("yes"), S("auto"), mc.MAYBE, S("whatever")]
+
+
+def pre_settings_of(op):
+    if op["op"] == "setitem":
+        return [[op["key"], op["value"]]]
+    return list(op.get("pos") or []) + list(op.get("settings") or [])
+
+
+class SettingsRef:
+    """The generator settings in force, kept by the ORACLE (the idea of harness/props/c19.py run_reference, restated):
+    a stack of levels, innermost first; a call naming an unknown option is rejected as a whole (KeyError; TypeError
+    from set()), set() also rejects an option value that is neither a bool, Maybe nor text (AttributeError), an end()
+    without an open begin() is a RuntimeError -- and a rejected call changes NOTHING.  Never reads the library."""
+
+    def __init__(self, settings):
+        self.levels = [dict((k, v) for k, v in settings)]
+
+    def expect(self, op):
+        """-> (exception class name or None, kind of rejection or None); applies the call when it is accepted"""
+        kind = op["op"]
+        if kind == "end":
+            if len(self.levels) == 1:
+                return "RuntimeError", "end:unbalanced"
+            self.levels.pop(0)
+            return None, None
+        if kind == "tag":
+            if op.get("how", "call") != "call" and op["tag"] in VOIDS:
+                return "ValueError", "tag:void-open"
+            if op.get("badbind"):
+                return "AttributeError", "tag:badbind"
+            return "AttributeError", "tag:nontext-attr"
+        pairs = pre_settings_of(op)
+        keys = [k for k, _ in pairs]
+        bad = [i for i, k in enumerate(keys) if k not in PRE_KNOWN]
+        if kind == "set":
+            # in call order: the first offending pair decides the exception
+            for i, (k, v) in enumerate(pairs):
+                if k not in PRE_KNOWN:
+                    return "TypeError", "unknown:set:%s" % _position(i, len(pairs))
+                if k.startswith("auto_") and v["t"] not in ("b", "s", "m", "maybe"):
+                    return "AttributeError", "toggle:set:%s" % _position(i, len(pairs))
+        elif bad:
+            i = bad[0]
+            if kind == "update" and op.get("pos") is not None:
+                part = "pos" if i < len(op["pos"]) else "kw"
+                where = "%s-part:%s" % (part, _position(i, len(pairs)))
+            else:
+                where = _position(i, len(pairs))
+            return "KeyError", "unknown:%s:%s" % (kind, where)
+        if kind == "begin":
+            self.levels.insert(0, {})
+        for k, v in pairs:
+            self.levels[0][k] = v
+        return None, None
+
+    def lookup(self, key):
+        for lv in self.levels:
+            if key in lv:
+                return lv[key]
+        return None
+
+    def live(self, key):
+        """is the option on for a control that does not say otherwise?  (on / off / auto = the documented default)"""
+        v = self.lookup(key)
+        if v is None:
+            return PRE_DEFAULT[key]
+        if v["t"] == "b":
+            return bool(v["v"])
+        if v["t"] in ("s", "m"):
+            low = v["v"].lower()
+            if low in PRE_YES:
+                return True
+            if low in PRE_NO:
+                return False
+        return PRE_DEFAULT[key]
+
+
+def _position(i, n):
+    if n == 1:
+        return "only"
+    return "first" if i == 0 else ("last" if i == n - 1 else "middle")
+
+
+def reference_of(case):
+    """replay the pre-history on the reference: (ref, [(expected error, rejection kind)] per call, number accepted)"""
+    ref = SettingsRef(case["settings"])
+    outcome = [ref.expect(op) for op in case.get("pre") or []]
+    return ref, outcome, sum(1 for e, _ in outcome if e is None)
+
+
+def apply_pre(gen, pool, root, case, op):
+    """one pre-history call on the real generator, caught: exception class name or None"""
+    try:
+        kind = op["op"]
+        if kind == "begin":
+            gen.begin(**mc.kwargs_of(op["settings"]))
+        elif kind == "end":
+            gen.end()
+        elif kind == "set":
+            gen.set(**mc.kwargs_of(op["settings"]))
+        elif kind == "setitem":
+            gen[op["key"]] = mc.to_py(op["value"])
+        elif kind == "update":
+            if op.get("pos") is not None:
+                gen.update(mc.kwargs_of(op["pos"]), **mc.kwargs_of(op["settings"]))
+            else:
+                gen.update(**mc.kwargs_of(op["settings"]))
+        elif kind == "tag":
+            if op.get("badbind"):
+                el = "not an element"
+            else:
+                el = navigate(root, case["tree"], op["sel"])[0] if op.get("sel") is not None else None
+            pool.render(dict(op, via="prop" if op["tag"] in mc.PROP_TAGS else "tag"), el, mc.kwargs_of(op["kwargs"]))
+        else:
+            raise ValueError(kind)
+    except AssertionError:
+        raise
+    except CaseTimeout:
+        raise
+    except Exception as e:  # noqa
+        return type(e).__name__
+    return None
+
+
+PRE_NEUTRAL = [("auto_domid", [B(True), S("on"), B(False), S("auto")]), ("auto_for", [B(True), S("on"), B(False)]),
+               ("domid_format", [S("id_%s"), S("%s"), S("f_%s")]), ("ordered_attributes", [B(True), B(False)]),
+               ("auto_filter", [B(False), S("off")])]
+
+
+def _pre_valid_pairs(rng, n, harmful):
+    """n valid (known key, value) pairs with distinct keys.  harmful: mostly the ones that would switch off what C12 is
+    about if they were applied (auto_name / auto_value off, another domid_format)"""
+    out, used = [], set()
+    for _ in range(n):
+        if rng.random() < (0.75 if harmful else 0.25):
+            k = rng.choice(["auto_name", "auto_value"])
+            v = rng.choice(PRE_OFF) if harmful or rng.random() < 0.5 else rng.choice(PRE_ON)
+        else:
+            k, vs = rng.choice(PRE_NEUTRAL)
+            v = rng.choice(vs)
+        if k in used:
+            continue
+        used.add(k)
+        out.append([k, v])
+    return out
+
+
+def _pre_rejected_settings(rng):
+    """a settings call with an unknown option among valid ones (every position; update: positional mapping and keywords
+    mixed), or set() with an option value it rejects"""
+    kind = rng.choice(["update", "update", "update", "begin", "set", "setitem"])
+    if kind == "setitem":
+        return {"op": "setitem", "key": rng.choice(PRE_UNKNOWN), "value": rng.choice(PRE_OFF)}
+    valid = _pre_valid_pairs(rng, rng.choice([0, 1, 1, 2, 2, 3]), True)
+    if kind == "set" and rng.random() < 0.4:
+        # an option value set() cannot read (parse_trool of an int): rejected before anything is applied
+        bad = [rng.choice(["auto_name", "auto_value", "auto_domid", "auto_for"]), I(rng.choice([0, 1, 7]))]
+        valid = [p for p in valid if p[0] != bad[0]]
+    else:
+        bad = [rng.choice(PRE_UNKNOWN), rng.choice(PRE_OFF + [S("x%s"), I(1)])]
+    at = rng.randint(0, len(valid))
+    pairs = valid[:at] + [bad] + valid[at:]
+    if kind == "update" and rng.random() < 0.5:
+        cut = rng.randint(0, len(pairs))
+        return {"op": "update", "pos": pairs[:cut], "settings": pairs[cut:]}
+    if kind == "update":
+        return {"op": "update", "pos": None, "settings": pairs}
+    return {"op": kind, "settings": pairs}
+
+
+def _pre_accepted_settings(rng, depth):
+    kind = rng.choice(["begin", "begin", "set", "update", "setitem"] + (["end", "end"] if depth else []))
+    if kind == "end":
+        return {"op": "end"}
+    pairs = _pre_valid_pairs(rng, rng.choice([0, 1, 1, 2]), False)
+    if kind == "setitem":
+        k, v = (pairs or [["auto_domid", B(True)]])[0]
+        return {"op": "setitem", "key": k, "value": v}
+    if kind == "update":
+        if rng.random() < 0.5:
+            return {"op": "update", "pos": None, "settings": pairs}
+        cut = rng.randint(0, len(pairs))
+        return {"op": "update", "pos": pairs[:cut], "settings": pairs[cut:]}
+    return {"op": kind, "settings": pairs}
+
+
+def _pre_failing_tag(rng, case):
+    """a tag call that raises midway: a non-text attribute value (the transforms have run, the attributes are being
+    written: AttributeError), a bind that is not an element, open() of a void element -- on a fresh Tag, on the Tag
+    object a later rendering holds, or through open() (which leaves the Tag on the generator's open-tag stack)"""
+    lv = list(leaves(case["tree"]))
+    held = [r for r in case["renders"] if r.get("handle") is not None and r["tag"] in NONVOID]
+    r = rng.random()
+    scalars = [sel for sel, node in lv if node["t"] == "leaf"] or [None]
+    if r < 0.15:
+        sel = rng.choice(scalars)
+        return {"op": "tag", "sel": sel, "tag": "input", "kwargs": [["type", S("text")]], "how": rng.choice(["open", "openclose"]),
+                "handle": None, "badbind": False}
+    if held and rng.random() < 0.6:
+        h = rng.choice(held)
+        tag, handle = h["tag"], h["handle"]
+    else:
+        tag, handle = rng.choice(["textarea", "textarea", "button", "select", "input", "input", "label", "option"]), None
+    how = "call" if tag == "input" else rng.choice(["call", "open", "open", "openclose"])
+    if r < 0.35:
+        # (auto_name forced on: the first transform asks the bind for its flattened name)
+        return {"op": "tag", "sel": None, "tag": tag, "kwargs": [["auto_name", S("on")]] + ([["type", S("text")]] if tag == "input" else []),
+                "how": how, "handle": handle, "badbind": True}
+    kw = [[rng.choice(["rows", "cols", "disabled", "size", "data-x"]), B(True)]]
+    if tag == "input":
+        kw.insert(rng.randint(0, 1), ["type", S(rng.choice(["text", "hidden"]))])
+    return {"op": "tag", "sel": rng.choice(scalars), "tag": tag, "kwargs": kw, "how": how, "handle": handle, "badbind": False}
+
+
+def _rand_pre(rng, case):
+    n = rng.choice([1, 1, 2, 2, 3, 4, 5])
+    ops, depth = [], 0
+    for _ in range(n):
+        r = rng.random()
+        if r < 0.50:
+            ops.append(_pre_rejected_settings(rng))
+        elif r < 0.58:
+            ops.append({"op": "end"})              # rejected when nothing is open (the reference decides)
+            depth = max(0, depth - 1)
+        elif r < 0.78:
+            ops.append(_pre_failing_tag(rng, case))
+        else:
+            op = _pre_accepted_settings(rng, depth)
+            depth += {"begin": 1, "end": -1}.get(op["op"], 0)
+            ops.append(op)
+    return ops
+
+
+def render_all(case, pre_errs=None):
+    """run the pre-history (every call caught) and then every render of the case on ONE real generator; returns
+    (root, list of per-render dicts); the exception class of every pre-history call is appended to pre_errs"""
     from flatland.out.markup import Generator, Tag
     root = build(case)
     gen = Generator(case["markup"], **mc.kwargs_of(case["settings"]))
     pool = mc.TagPool(gen)
+    for op in case.get("pre") or []:
+        err = apply_pre(gen, pool, root, case, op)
+        if pre_errs is not None:
+            pre_errs.append(err)
     results = []
     names = []
     for r in case["renders"]:
@@ -570,7 +827,7 @@ def _fix_arr_shown(case):
 class C12(Property):
     id = "C12"
     title = "a rendered form, submitted unchanged, posts the element's own flat pairs"
-    proof_module = "Proofs.C12FormExamples"
+    proof_module = "Proofs.C12Rejected"
     theorems = [
         "Flatland.C12.Proofs.flatName_spec",
         "Flatland.C12.Proofs.flatName_child",
@@ -622,6 +879,15 @@ class C12(Property):
         "Flatland.C12.Proofs.exForm_ok",
         "Flatland.C12.Proofs.exForm_posts",
         "Flatland.C12.Proofs.exForm_posts_generator",
+        # after a rejected generator call (Proofs/C12Rejected.lean)
+        "Flatland.C12.Proofs.failed_settings_call_keeps_generator",
+        "Flatland.C12.Proofs.rejected_call_raises",
+        "Flatland.C12.Proofs.rejected_call_preserves_rendering",
+        "Flatland.C12.Proofs.failed_call_preserves_rendering",
+        "Flatland.C12.Proofs.rejected_prehistory_keeps_generator",
+        "Flatland.C12.Proofs.rejected_prehistory_form_roundtrip",
+        "Flatland.C12.Proofs.exRejected_rejected",
+        "Flatland.C12.Proofs.exForm_posts_after_rejected",
     ]
     generated_obligations = []
     level_text = "proof"
@@ -663,6 +929,20 @@ class C12(Property):
                   "TablesOK (discharged for Tables.current); (4) boolsCanonical (every Boolean's text is its true value or '') "
                   "only for the statement that the unposted pairs of flatten() have value ''.  The harness re-states (1)+(2)+(4) "
                   "on the case (form_ok) and tags every form-mode case formOk / formOk=false:<reason>.  "
+                  "AFTER A REJECTED CALL (failure / recovery paths): a case may make generator calls, each caught, on the "
+                  "same generator before the first rendering.  THEOREMS (Proofs/C12Rejected.lean, on the C19 model of "
+                  "Context / Generator that the runner uses for those calls): failed_settings_call_keeps_generator -- ANY begin / "
+                  "end / set / []= / update that raises leaves the generator as it was; rejected_call_preserves_rendering -- "
+                  "a call with an unknown option in any position (or an unbalanced end()) followed by a rendering through any "
+                  "Tag method = the rendering without it (from C19's *_unknown_rejected); rejected_prehistory_form_roundtrip -- "
+                  "the whole-form round trip holds on the generator after any pre-history of rejected calls.  ORACLE: keeps its "
+                  "own settings stack (SettingsRef, nothing read from the library), decides which calls are rejected, checks each "
+                  "call's outcome (pre-history-outcome) and then states the property's own clauses exactly as if the rejected "
+                  "calls had not been made; when an ACCEPTED call switched auto_name / auto_value off per the reference the "
+                  "per-control and form clauses are not asked (tag pre-live=False).  FAILED TAG CALLS in the pre-history (non-text "
+                  "attribute value, a bind that is not an element, open() of a void element; on a fresh Tag, on the Tag object a "
+                  "later rendering holds, through open() which leaves the Tag on the generator's open-tag stack): "
+                  "correspondence + oracle only -- the model renders statelessly in the Tag object (Gen.renderHow).  "
                   "ORACLE/CORRESPONDENCE ONLY: label for = id for textarea/button controls; that "
                   "from_flat of the posted pairs rebuilds the element (C01's function on the real code)")
     technique = ("symbolic evaluation of the transform pipeline under Enabled/Disabled contexts + frame lemmas; browser "
@@ -685,6 +965,11 @@ class C12(Property):
         "<textarea>; option text stripped and collapsed on ASCII whitespace).  NOT modelled: CR/CRLF -> LF normalisation of the "
         "input stream, newline stripping in text inputs, CRLF normalisation on submission, NUL -> U+FFFD: element texts "
         "containing CR/LF/NUL in text-like inputs are 'posted unchanged' relative to that",
+        "pre-history: calls come BEFORE the first rendering only (not between renderings); update() takes one positional "
+        "mapping and keywords, modelled as the concatenated pair list (`source = list(to_pairs(m)); source.extend(kw.items())`); "
+        "a bind that is not an element is a str and the call forces auto_name='on', so that the first transform raises "
+        "(the model takes that AttributeError as given: `PreOp.badBind`); a non-text attribute value is `True`; option values "
+        "stored by accepted calls are bools / Maybe / text (an int is only offered to set(), which rejects it)",
         "leaf kinds: String, Integer, Boolean, Array of String, MultiValue of String, JoinedString (DateYYYYMMDD, Enum, SparseDict "
         "of C01's trees are not generated here: their leaves are scalars of the kinds above as far as the transforms can tell)",
     ]
@@ -693,7 +978,14 @@ class C12(Property):
             "button, checkbox (with/without literal, Boolean/Array binds), radio groups, select/option (value= or contents=), "
             "password/file/image/reset/button types, labels paired with a control; decoy literals differing from the text only in "
             "case / Unicode normal form / padding; form mode (35%, mostly >= 3 leaves, 0 / 1 / 2+ submitters) renders one "
-            "control (group) per leaf and feeds the posted pairs to from_flat.  non-trivial = some control posts a pair or is deliberately unchecked; distinct = distinct "
+            "control (group) per leaf and feeds the posted pairs to from_flat.  PRE-HISTORY (40% of the cases, 1-5 calls on the same "
+            "generator before the first rendering, each caught): 50% a settings call with an unknown option among 0-3 valid ones "
+            "(update x3 / begin / set / []=; unknown key first / middle / last / only; update with a positional mapping and "
+            "keywords, the unknown key in either part; the valid pairs mostly switch auto_name / auto_value off -- what would "
+            "break the form if applied) or set() with an int option value; 8% end(); 20% a failing tag call (non-text attribute "
+            "value / non-element bind / open() of a void element; call / open / open+close; fresh Tag or the Tag a later "
+            "rendering holds); 22% an accepted begin / end / set / update / []=.  Tags: pre=<n>, pre-rejected=<n>, "
+            "pre-rej=<kind>:<call>:<position>, pre-tag=<tag>:<how>:<fresh|held>, pre-ok=<call>, pre-live, pre-then-form.  non-trivial = some control posts a pair or is deliberately unchecked; distinct = distinct "
             "canonical case JSON")
     quick_n = 40000
     case_timeout = 60      # the machine is shared: a stalled worker must not look like a hang of the library
@@ -822,19 +1114,71 @@ class C12(Property):
             rd([8], "input", [["type", S("hidden")]], "value")]
         cases.append({"markup": "xhtml", "settings": [], "form_mode": True, "tree": ex_tree,
                       "renders": [dict(r, form=True) for r in ex_renders]})
+        # ---- renderings that FOLLOW a rejected generator call (seeded mutation C12-context-update-kwargs-after-precheck:
+        # update() applied the keyword pairs in front of the unknown one before raising)
+        # the Lean example `exRejected` (Proofs/C12Rejected.lean) in front of the example form: `exForm_posts_after_rejected`
+        ex_pre = [{"op": "update", "pos": None, "settings": [["auto_name", B(False)], ["no_such", I(1)]]},
+                  {"op": "begin", "settings": [["no_such", I(1)], ["auto_value", B(False)]]},
+                  {"op": "set", "settings": [["auto_value", S("off")], ["auto_nmae", B(True)]]},
+                  {"op": "setitem", "key": "no_such", "value": B(False)},
+                  {"op": "end"}]
+        cases.append({"markup": "xhtml", "settings": [], "form_mode": True, "tree": ex_tree, "pre": ex_pre,
+                      "renders": [dict(r, form=True) for r in ex_renders]})
+        # the mutation's demo: text input, textarea, three checkboxes bound to an Array, after two rejected update()s
+        demo_tree = {"t": "dict", "name": "user", "fields": [
+            {"t": "leaf", "name": "email", "py": "str", "u": "a&b@example.com"},
+            {"t": "leaf", "name": "bio", "py": "str", "u": "x < y"},
+            {"t": "array", "flavour": "array", "name": "roles", "strip": True, "members": ["1", "3"]}]}
+        demo_renders = [rd([0], "input", [["type", S("text")]], "value"), rd([1], "textarea", [], "value"),
+                        chk([2], "checkbox", "1"), chk([2], "checkbox", "3")]
+        cases.append({"markup": "html", "settings": [], "form_mode": True, "tree": demo_tree,
+                      "pre": [{"op": "update", "pos": None, "settings": [["auto_value", B(False)], ["auto_nmae", B(True)]]},
+                              {"op": "update", "pos": None, "settings": [["auto_name", B(False)], ["domid_fromat", S("x%s")]]},
+                              {"op": "begin", "settings": [["auto_name", B(False)], ["auto_vlaue", B(False)]]}],
+                      "renders": [dict(r, form=True) for r in demo_renders]})
+        # minimised replays of the drill: the valid pair in the positional mapping / in the keywords, the unknown key after it
+        cases.append(dict(one("a b", [rd([0], "input", [["type", S("search")]], "value")]),
+                          pre=[{"op": "update", "pos": None, "settings": [["auto_name", S("NIL")], ["name", S("False")]]}]))
+        cases.append(dict(one("", [rd([0], "textarea", [], "value")]),
+                          pre=[{"op": "update", "pos": [["auto_name", S("False")]], "settings": [["domid_fromat", B(False)]]}]))
+        cases.append(dict(one("x", [rd([0], "input", [["type", S("radio")], ["value", S("x")]], "check", lit="x")]),
+                          pre=[{"op": "update", "pos": [["auto_domid", B(True)]],
+                                "settings": [["auto_for", B(True)], ["auto_value", S("off")], ["", B(True)], ["auto_name", B(True)]]}]))
+        # set() rejecting an option value after a valid pair; unbalanced end(); accepted begin(auto_name off) ... end()
+        cases.append(dict(one("x", [rd([0], "button", [], "value")]),
+                          pre=[{"op": "set", "settings": [["auto_value", B(False)], ["auto_name", I(7)]]}, {"op": "end"},
+                               {"op": "begin", "settings": [["auto_name", B(False)]]}, {"op": "end"}, {"op": "end"}]))
+        # seeded mutation C11-tag-open-keeps-stale-contents: open() raises midway (non-text attribute value) AFTER the
+        # transforms stored the body; the Tag stays on the generator's open-tag stack; the next (empty) field renders through it
+        notes = {"t": "dict", "name": "post", "fields": [{"t": "leaf", "name": "notes", "py": "str", "u": "</textarea> & <b>"},
+                                                        {"t": "leaf", "name": "bio", "py": "str", "u": ""}]}
+        for how, handle in (("open", None), ("call", 0), ("openclose", 0)):
+            cases.append({"markup": "xhtml", "settings": [], "form_mode": False, "tree": notes,
+                          "pre": [{"op": "tag", "sel": [0], "tag": "textarea", "kwargs": [["rows", B(True)]], "how": how,
+                                   "handle": handle, "badbind": False},
+                                  {"op": "tag", "sel": None, "tag": "textarea", "kwargs": [["auto_name", S("on")]], "how": how,
+                                   "handle": handle, "badbind": True},
+                                  {"op": "tag", "sel": [0], "tag": "input", "kwargs": [], "how": "open", "handle": None, "badbind": False}],
+                          "renders": [dict(rd([1], "textarea", [], "value"), handle=handle),
+                                      dict(rd([1], "textarea", [], "value"), handle=handle, how="openclose"),
+                                      rd([0], "textarea", [], "value")]})
         return [_fix_arr_shown(c) for c in cases]
 
     def generate(self, rng, n, tier):
         for _ in range(n):
-            yield _fix_arr_shown(_rand_case(rng))
+            case = _rand_case(rng)
+            if rng.random() < 0.4:
+                case["pre"] = _rand_pre(rng, case)
+            yield _fix_arr_shown(case)
 
     # ------------------------------------------------------------------ real implementation
     def run_impl(self, case):
+        pre_errs = []
         try:
-            root, results = render_all(case)
+            root, results = render_all(case, pre_errs)
         except AssertionError:
             raise
-        obs = {"init_err": None, "renders": []}
+        obs = {"init_err": None, "pre": [{"err": e} for e in pre_errs], "renders": []}
         for r, res in zip(case["renders"], results):
             el = res["el"]
             bind = None
@@ -853,7 +1197,15 @@ class C12(Property):
     # ------------------------------------------------------------------ oracle
     def oracle(self, case):
         fails = []
-        root, results = render_all(case)
+        pre_errs = []
+        root, results = render_all(case, pre_errs)
+        # the settings in force when the renderings start, by the oracle's own reference: a rejected call changes nothing,
+        # so everything below is stated exactly as if the rejected calls had not been made
+        ref, outcome, _ = reference_of(case)
+        for i, ((want, _), got) in enumerate(zip(outcome, pre_errs)):
+            if want != got:
+                fails.append({"clause": "pre-history-outcome", "op": i, "expected": want, "observed": got})
+        live = ref.live("auto_name") and ref.live("auto_value")
         posted_pairs = []
         submitters = []
         for i, (r, res) in enumerate(zip(case["renders"], results)):
@@ -874,6 +1226,8 @@ class C12(Property):
                 posted_pairs.append(tuple(posted))
             if not name:
                 continue          # the property speaks about non-empty flat names
+            if not live and role in ("value", "check", "option"):
+                continue          # an ACCEPTED call switched auto_name / auto_value off (per the reference): not C12's controls
             if role == "value" and r["tag"] == "input" and ascii_lower(str(self._type_of(r) or "text")) in INPUT_NEVER_POSTS:
                 # reset / button / file / image inputs never post their value: outside "text-like inputs and buttons"
                 continue
@@ -920,12 +1274,18 @@ class C12(Property):
                     fails.append({"clause": "checked-iff-matches", "render": i, "expected": want, "observed": posted,
                                   "markup": res["out"], "name": name, "lit": lit, "u": el.u})
             elif role == "label":
+                if ref.live("auto_domid") != ref.live("auto_for") or not live:
+                    # an ACCEPTED call left ids on and for= off (or the reverse), or switched auto_value off (the id of a
+                    # check control ends in its value), per the reference: no pairing asked
+                    continue
                 ctl = results[r["pair"]]
                 if ctl["parsed"] is None:
                     continue
                 if res.get("for") != ctl.get("id"):
                     fails.append({"clause": "label-targets-control", "render": i, "expected": ctl.get("id"), "observed": res.get("for"),
                                   "markup": [ctl["out"], res["out"]], "pair": r["pair"]})
+        if not live:
+            return fails
         if case.get("form_mode") and len(submitters) > 1:
             # more than one submitter: only the activated one (the first) posts.  The property then holds for every
             # element except those rendered ONLY as a submitter that was not pressed: exactly their pairs are missing
@@ -1100,6 +1460,9 @@ class C12(Property):
             return False, "not-form-mode"
         if case["settings"]:
             return False, "settings (theorem: Generator())"
+        if reference_of(case)[2]:
+            # (rejected calls and failed tag calls are covered: rejected_prehistory_form_roundtrip)
+            return False, "pre-history with an accepted call"
         groups = {}
         for i, r in enumerate(case["renders"]):
             if r.get("sel") is None or not r.get("form"):
@@ -1189,6 +1552,24 @@ class C12(Property):
 
     def tags(self, case, obs):
         t = ["renders=%d" % min(len(case["renders"]), 12), "form=%s" % bool(case.get("form_mode"))]
+        pre = case.get("pre") or []
+        t.append("pre=%d" % len(pre))
+        if pre:
+            ref, outcome, accepted = reference_of(case)
+            t.append("pre-rejected=%d" % (len(pre) - accepted))
+            t.append("pre-accepted=%d" % accepted)
+            for op, (e, kind) in zip(pre, outcome):
+                if kind:
+                    t.append("pre-rej=%s" % kind)
+                    if op["op"] == "tag":
+                        t.append("pre-tag=%s:%s:%s" % (op["tag"], op.get("how", "call"), "held" if op.get("handle") is not None else "fresh"))
+                    elif any(k in ("auto_name", "auto_value") and v.get("v") in (False, "off", "no", "0", "False", "NIL")
+                             for k, v in pre_settings_of(op)):
+                        t.append("pre-rej-would-switch-off")
+                else:
+                    t.append("pre-ok=%s" % op["op"])
+            t.append("pre-live=%s" % bool(ref.live("auto_name") and ref.live("auto_value")))
+            t.append("pre-then-form=%s" % bool(case.get("form_mode")))
         depth = 0
 
         def d(n, k=0):
@@ -1223,6 +1604,18 @@ class C12(Property):
     # ------------------------------------------------------------------ shrinking
     def shrink_candidates(self, case):
         rs = case["renders"]
+        pre = case.get("pre") or []
+        for i in range(len(pre)):
+            c = copy.deepcopy(case)
+            del c["pre"][i]
+            yield c
+        for i, op in enumerate(pre):
+            # fewer pairs in a settings call (the reference re-decides whether it is still rejected)
+            for part in ("pos", "settings"):
+                for j in range(len(op.get(part) or [])):
+                    c = copy.deepcopy(case)
+                    del c["pre"][i][part][j]
+                    yield c
         for i in range(len(rs)):
             # keep indexes of pairs / selects valid
             if any(r.get("pair") == i or r.get("within") == i for r in rs):
